@@ -15,6 +15,7 @@ from spec import format as F
 from . import common as K
 from . import rw
 
+TECHNIQUE = "contract-based deductive verification (symbolic execution of the real readers on reference-encoder streams, z3/cvc5); fixtures and string payload catalogue as labelled run-time contract evaluation (bounded)"
 LEVEL = "other"
 LEVEL_TEXT = (
     "Mixed: the reader is symbolically executed on streams produced by an independent reference encoder (spec/format.py) from symbolic "
